@@ -54,6 +54,8 @@ def run(ctx):
                       "no ListProxy notification scope, no mutator call on the objects proxy)", floor=30)
     ctx.rule("R02.w", "the public update() adds nothing to a rejection: Parameters.update interpreted abstractly with a rejecting _update (instance and class namespace, keywords / dict): "
                       "the exception propagates and no further assignment, update or dispatch is made on the way out (a 'rollback' through the setter would drop links and notify watchers)", floor=1)
+    ctx.rule("R02.x", "class route, first set on a subclass: the per-class copy of an inherited Parameter that the metaclass installs before calling __set__ does not outlive a rejection -- "
+                      "the exceptional exit of that __set__ call removes the copy again (otherwise the subclass silently stops following later changes of the ancestor's default)", floor=1)
     ctx.rule("R02.m", "setter model: Parameter.__set__ interpreted abstractly on every combination (576) of route x constant/readonly x validation outcome x identity x reference mode x watchers x batching agrees with the specification of this property (see checks/setter_model.py)", floor=1)
     ctx.rule("R02.u", "update model: Parameters._update interpreted abstractly (entry batching flag x key orders incl. an Event key x a rejected or unknown key at every position x a value identical to the current one, 60 cases): flag restored, flush exactly once iff outermost and after the restore, keys applied in order up to the failing one, Event mode and reset, complete previous-values mapping", floor=1)
     ctx.not_decided += ["that callees are effect-free before their own raises (Composite._post_setter assigns constituents one by one)",
@@ -165,6 +167,35 @@ def run(ctx):
 
     from checks import update_model
     update_model.report(ctx, "C02", "R02.u")
+
+    # ---------------------------------------------------------------- R02.x
+    ms = ctx.repo.func("param.parameterized.ParameterizedMetaclass.__setattr__")
+    mcfg = ctx.facts.cfg(ms)
+    installs = [n for n in mcfg.live_nodes() for c in calls_in(n) if norm(c.func) == "type.__setattr__" and any("owning_class" in norm(e) for e, t in mcfg.conditions(n))]
+    sets_ = [n for n in mcfg.live_nodes() for c in calls_in(n) if isinstance(c.func, ast.Attribute) and c.func.attr == "__set__" and c.args and norm(c.args[0]) == "None"]
+    ctx.require(installs and sets_, "the copy-on-write branch of the metaclass __setattr__ was not found")
+    for sn in sets_:
+        if not any(any(r is sn for r in mcfg.reachable_from([i])) for i in installs):
+            ctx.ok("R02.x", ms, sn, "no per-class copy is installed before this __set__")
+            continue
+        seen, stack, leaves_copy = set(), [t for l, t in sn.succ if l == "e"], False
+        while stack:
+            n = stack.pop()
+            if n.id in seen:
+                continue
+            seen.add(n.id)
+            if any(norm(c.func) in ("type.__delattr__", "delattr") for c in calls_in(n)):
+                continue
+            if n is mcfg.excexit:
+                leaves_copy = True
+                break
+            stack.extend(t for l, t in n.succ)
+        if leaves_copy:
+            ctx.fail("R02.x", ms, sn, "`%s` may reject the value after the per-class copy of the inherited Parameter was installed, and nothing removes the copy on that exit: "
+                                      "the rejected assignment leaves the subclass with its own Parameter, so later changes of the ancestor's default no longer reach it" % sn.text()[:60],
+                     key=ms.qualname + "::copy-left-after-rejection", input="class Sub(Base): pass; Sub.x = <rejected>; Base.x = 5 -> Sub.x keeps the old default")
+        else:
+            ctx.ok("R02.x", ms, sn, "the copy is removed again when __set__ raises")
 
     # ---------------------------------------------------------------- R02.w
     from engine.absint import Interp, Obj, Unsupported, _Raise
